@@ -198,9 +198,9 @@ theorem keyIn_mItemsField {st : Store} {rec : MRec} {c : Option NodeId} {a : Opt
 
 /-- the tagged / wrapper names in emission order, written as the append chain the member list has -/
 def emittedNames : List String :=
-  (((((((((((((((((((((((((((((((((((((((((((((((((((((((((((["type"] ++ ["properties"]) ++ ["dependencies"]) ++ ["items"]) ++ ["enum"]) ++ ["anyOf"]) ++ ["oneOf"]) ++ ["$id"]) ++ ["$schema"]) ++ ["$ref"]) ++ ["$comment"]) ++ ["$defs"]) ++ ["definitions"]) ++ ["$anchor"]) ++ ["$dynamicAnchor"]) ++ ["$dynamicRef"]) ++ ["$vocabulary"]) ++ ["title"]) ++ ["description"]) ++ ["default"]) ++ ["deprecated"]) ++ ["readOnly"]) ++ ["writeOnly"]) ++ ["examples"]) ++ ["const"]) ++ ["multipleOf"]) ++ ["minimum"]) ++ ["maximum"]) ++ ["exclusiveMinimum"]) ++ ["exclusiveMaximum"]) ++ ["minLength"]) ++ ["maxLength"]) ++ ["pattern"]) ++ ["prefixItems"]) ++ ["minItems"]) ++ ["maxItems"]) ++ ["additionalItems"]) ++ ["uniqueItems"]) ++ ["contains"]) ++ ["minContains"]) ++ ["maxContains"]) ++ ["unevaluatedItems"]) ++ ["minProperties"]) ++ ["maxProperties"]) ++ ["required"]) ++ ["dependentRequired"]) ++ ["patternProperties"]) ++ ["additionalProperties"]) ++ ["propertyNames"]) ++ ["unevaluatedProperties"]) ++ ["allOf"]) ++ ["not"]) ++ ["if"]) ++ ["then"]) ++ ["else"]) ++ ["dependentSchemas"]) ++ ["contentEncoding"]) ++ ["contentMediaType"]) ++ ["contentSchema"]) ++ ["format"])
+  (((((((((((((((((((((((((((((((((((((((((((((((((((((((((((["type"] ++ ["properties"]) ++ ["dependencies"]) ++ ["items"]) ++ ["enum"]) ++ ["anyOf"]) ++ ["oneOf"]) ++ ["$vocabulary"]) ++ ["$id"]) ++ ["$schema"]) ++ ["$ref"]) ++ ["$comment"]) ++ ["$defs"]) ++ ["definitions"]) ++ ["$anchor"]) ++ ["$dynamicAnchor"]) ++ ["$dynamicRef"]) ++ ["title"]) ++ ["description"]) ++ ["default"]) ++ ["deprecated"]) ++ ["readOnly"]) ++ ["writeOnly"]) ++ ["examples"]) ++ ["const"]) ++ ["multipleOf"]) ++ ["minimum"]) ++ ["maximum"]) ++ ["exclusiveMinimum"]) ++ ["exclusiveMaximum"]) ++ ["minLength"]) ++ ["maxLength"]) ++ ["pattern"]) ++ ["prefixItems"]) ++ ["minItems"]) ++ ["maxItems"]) ++ ["additionalItems"]) ++ ["uniqueItems"]) ++ ["contains"]) ++ ["minContains"]) ++ ["maxContains"]) ++ ["unevaluatedItems"]) ++ ["minProperties"]) ++ ["maxProperties"]) ++ ["required"]) ++ ["dependentRequired"]) ++ ["patternProperties"]) ++ ["additionalProperties"]) ++ ["propertyNames"]) ++ ["unevaluatedProperties"]) ++ ["allOf"]) ++ ["not"]) ++ ["if"]) ++ ["then"]) ++ ["else"]) ++ ["dependentSchemas"]) ++ ["contentEncoding"]) ++ ["contentMediaType"]) ++ ["contentSchema"]) ++ ["format"])
 
-theorem emittedNames_eq : emittedNames = ["type", "properties", "dependencies", "items", "enum", "anyOf", "oneOf", "$id", "$schema", "$ref", "$comment", "$defs", "definitions", "$anchor", "$dynamicAnchor", "$dynamicRef", "$vocabulary", "title", "description", "default", "deprecated", "readOnly", "writeOnly", "examples", "const", "multipleOf", "minimum", "maximum", "exclusiveMinimum", "exclusiveMaximum", "minLength", "maxLength", "pattern", "prefixItems", "minItems", "maxItems", "additionalItems", "uniqueItems", "contains", "minContains", "maxContains", "unevaluatedItems", "minProperties", "maxProperties", "required", "dependentRequired", "patternProperties", "additionalProperties", "propertyNames", "unevaluatedProperties", "allOf", "not", "if", "then", "else", "dependentSchemas", "contentEncoding", "contentMediaType", "contentSchema", "format"] := rfl
+theorem emittedNames_eq : emittedNames = ["type", "properties", "dependencies", "items", "enum", "anyOf", "oneOf", "$vocabulary", "$id", "$schema", "$ref", "$comment", "$defs", "definitions", "$anchor", "$dynamicAnchor", "$dynamicRef", "title", "description", "default", "deprecated", "readOnly", "writeOnly", "examples", "const", "multipleOf", "minimum", "maximum", "exclusiveMinimum", "exclusiveMaximum", "minLength", "maxLength", "pattern", "prefixItems", "minItems", "maxItems", "additionalItems", "uniqueItems", "contains", "minContains", "maxContains", "unevaluatedItems", "minProperties", "maxProperties", "required", "dependentRequired", "patternProperties", "additionalProperties", "propertyNames", "unevaluatedProperties", "allOf", "not", "if", "then", "else", "dependentSchemas", "contentEncoding", "contentMediaType", "contentSchema", "format"] := rfl
 
 theorem keys_mMembers_sub (n : Node) (props : List (String × Json)) (deps : Option Json)
     (items defs definitions prefixItems additionalItems contains unevaluatedItems patternProperties additionalProperties propertyNames unevaluatedProperties allOf anyOf oneOf not_ if_ then_ else_ dependentSchemas contentSchema : List (String × Json))
@@ -252,7 +252,6 @@ theorem keys_mMembers_sub (n : Node) (props : List (String × Json)) (deps : Opt
   refine List.Sublist.append ?_ (keys_sub (keyIn_mem _ _))
   refine List.Sublist.append ?_ (keys_sub (keyIn_mStr _ _))
   refine List.Sublist.append ?_ (keys_sub (keyIn_mStr _ _))
-  refine List.Sublist.append ?_ (keys_sub (keyIn_mVocab n))
   refine List.Sublist.append ?_ (keys_sub (keyIn_mStr _ _))
   refine List.Sublist.append ?_ (keys_sub (keyIn_mStr _ _))
   refine List.Sublist.append ?_ (keys_sub (keyIn_mStr _ _))
@@ -262,6 +261,7 @@ theorem keys_mMembers_sub (n : Node) (props : List (String × Json)) (deps : Opt
   refine List.Sublist.append ?_ (keys_sub (keyIn_mStr _ _))
   refine List.Sublist.append ?_ (keys_sub (keyIn_mStr _ _))
   refine List.Sublist.append ?_ (keys_sub (keyIn_mStr _ _))
+  refine List.Sublist.append ?_ (keys_sub (keyIn_mVocab n))
   refine List.Sublist.append ?_ (keys_sub honeOf)
   refine List.Sublist.append ?_ (keys_sub hanyOf)
   refine List.Sublist.append ?_ (keys_sub (keyIn_mem _ _))
@@ -298,6 +298,55 @@ theorem marshalNode_obj_keys {st : Store} {rec : MRec} {n : Node} {ms : List (St
   obtain ⟨contentSchema, e_contentSchema, h21⟩ := Res.bind_eq_ok h20
   rw [mFinish_obj h21]
   exact keys_mMembers_sub n props deps items defs definitions prefixItems additionalItems contains unevaluatedItems patternProperties additionalProperties propertyNames unevaluatedProperties allOf anyOf oneOf not_ if_ then_ else_ dependentSchemas contentSchema (keyIn_mPropsField e_props) (keyIn_mItemsField e_items) (keyIn_mKeyed e_defs) (keyIn_mKeyed e_definitions) (keyIn_mMany e_prefixItems) (keyIn_mOne e_additionalItems) (keyIn_mOne e_contains) (keyIn_mOne e_unevaluatedItems) (keyIn_mKeyed e_patternProperties) (keyIn_mOne e_additionalProperties) (keyIn_mOne e_propertyNames) (keyIn_mOne e_unevaluatedProperties) (keyIn_mMany e_allOf) (keyIn_mManyNN e_anyOf) (keyIn_mManyNN e_oneOf) (keyIn_mOne e_not_) (keyIn_mOne e_if_) (keyIn_mOne e_then_) (keyIn_mOne e_else_) (keyIn_mKeyed e_dependentSchemas) (keyIn_mOne e_contentSchema)
+
+/-! ## `$vocabulary`: only nil is omitted -/
+
+theorem mFinish_of_mem {M : List (String × Json)} {j : Json} {e : String × Json} (he : e ∈ M) (hne : e.1 ≠ "not")
+    (h : mFinish M = .ok j) : j = .obj M := by
+  rw [mFinish_other (M := M)] at h
+  · cases h; rfl
+  · intro h0; rw [h0] at he; cases he
+  · intro h0
+    rw [h0, List.mem_singleton] at he
+    exact hne (by rw [he])
+
+theorem mVocab_some {n : Node} {vs : List (String × Bool)} (hv : n.vocabulary = some vs) :
+    mVocab n = [("$vocabulary", Json.obj (sortKV (vs.map fun (k, b) => (k, Json.bool b))))] := by
+  unfold mVocab
+  rw [hv]
+
+/-- a non-nil Vocabulary, empty or not, is written: the wrapper struct of MarshalJSON holds it as an `any` -/
+theorem marshalNode_vocab {st : Store} {rec : MRec} {n : Node} {j : Json} {vs : List (String × Bool)}
+    (hv : n.vocabulary = some vs) (h : marshalNode st rec n = .ok j) :
+    ∃ ms, j = .obj ms ∧ ("$vocabulary", Json.obj (sortKV (vs.map fun (k, b) => (k, Json.bool b)))) ∈ ms := by
+  unfold marshalNode marshalParts at h
+  obtain ⟨props, -, h0⟩ := Res.bind_eq_ok h
+  obtain ⟨deps, -, h1⟩ := Res.bind_eq_ok h0
+  obtain ⟨items, -, h2⟩ := Res.bind_eq_ok h1
+  obtain ⟨defs, -, h3⟩ := Res.bind_eq_ok h2
+  obtain ⟨definitions, -, h4⟩ := Res.bind_eq_ok h3
+  obtain ⟨prefixItems, -, h5⟩ := Res.bind_eq_ok h4
+  obtain ⟨additionalItems, -, h6⟩ := Res.bind_eq_ok h5
+  obtain ⟨contains, -, h7⟩ := Res.bind_eq_ok h6
+  obtain ⟨unevaluatedItems, -, h8⟩ := Res.bind_eq_ok h7
+  obtain ⟨patternProperties, -, h9⟩ := Res.bind_eq_ok h8
+  obtain ⟨additionalProperties, -, h10⟩ := Res.bind_eq_ok h9
+  obtain ⟨propertyNames, -, h11⟩ := Res.bind_eq_ok h10
+  obtain ⟨unevaluatedProperties, -, h12⟩ := Res.bind_eq_ok h11
+  obtain ⟨allOf, -, h13⟩ := Res.bind_eq_ok h12
+  obtain ⟨anyOf, -, h14⟩ := Res.bind_eq_ok h13
+  obtain ⟨oneOf, -, h15⟩ := Res.bind_eq_ok h14
+  obtain ⟨not_, -, h16⟩ := Res.bind_eq_ok h15
+  obtain ⟨if_, -, h17⟩ := Res.bind_eq_ok h16
+  obtain ⟨then_, -, h18⟩ := Res.bind_eq_ok h17
+  obtain ⟨else_, -, h19⟩ := Res.bind_eq_ok h18
+  obtain ⟨dependentSchemas, -, h20⟩ := Res.bind_eq_ok h19
+  obtain ⟨contentSchema, -, h21⟩ := Res.bind_eq_ok h20
+  have hm : ("$vocabulary", Json.obj (sortKV (vs.map fun (k, b) => (k, Json.bool b)))) ∈
+      mMembers n props deps items defs definitions prefixItems additionalItems contains unevaluatedItems patternProperties additionalProperties propertyNames unevaluatedProperties allOf anyOf oneOf not_ if_ then_ else_ dependentSchemas contentSchema := by
+    unfold mMembers
+    simp only [List.mem_append, mVocab_some hv, List.mem_singleton, true_or, or_true]
+  exact ⟨_, mFinish_of_mem hm (show "$vocabulary" ≠ "not" by decide) h21, hm⟩
 
 theorem emittedNames_nodup : emittedNames.Nodup := by
   rw [emittedNames_eq]; decide
